@@ -159,12 +159,97 @@ func ruleC05d(c *Ctx) {
 		}
 		switch fieldOfAddr(fa).Name() {
 		case "requestAccept":
-			owner, name, ok := headerGet(st.Val)
-			if ok && name == "Accept" {
-				if strip(owner) == ssa.Value(rq) {
-					okA = true
+			isHdr := func(v ssa.Value) bool {
+				owner, name, ok := headerGet(v)
+				if !ok || name != "Accept" {
+					return false
 				}
-				if b, f, ok := fieldLoad(strip(owner)); ok && f.Name() == "Header" && strip(b) == ssa.Value(rq) {
+				if strip(owner) == ssa.Value(rq) {
+					return true
+				}
+				b, f, ok := fieldLoad(strip(owner))
+				return ok && f.Name() == "Header" && strip(b) == ssa.Value(rq)
+			}
+			if isHdr(st.Val) {
+				okA = true
+				return
+			}
+			// the header, or - where the request sent none - what the route declares for that case: every other
+			// value that can be stored is a field of the route, and it is stored only where the header was found empty
+			srcs := p.sources(st.Val, provOpt{ThroughCells: true})
+			nh, nr, other := 0, 0, 0
+			for _, src := range srcs {
+				switch {
+				case isHdr(src):
+					nh++
+				default:
+					if b, _, ok := fieldLoad(strip(src)); ok && pw.Route >= 0 && (strip(b) == ssa.Value(w.Params[pw.Route]) || p.sameVar(b, w.Params[pw.Route])) {
+						nr++
+					} else {
+						other++
+					}
+				}
+			}
+			if nh > 0 && other == 0 {
+				guarded := nr == 0
+				facts := factsAt(w)
+				eachInstr(w, func(j ssa.Instruction) {
+					s2, ok := j.(*ssa.Store)
+					if !ok || isHdr(s2.Val) {
+						return
+					}
+					if b, _, ok := fieldLoad(strip(s2.Val)); ok && (strip(b) == ssa.Value(w.Params[pw.Route]) || p.sameVar(b, w.Params[pw.Route])) {
+						for f := range facts[s2.Block()] {
+							bo, ok := f.Cond.(*ssa.BinOp)
+							if !ok {
+								continue
+							}
+							for _, pr := range [][2]ssa.Value{{bo.X, bo.Y}, {bo.Y, bo.X}} {
+								if k, isS := constStr(pr[1]); isS && k == "" && (isHdr(pr[0]) || isHdr(singleAssignment(pr[0]))) && ((bo.Op == token.EQL && f.Pol) || (bo.Op == token.NEQ && !f.Pol)) {
+									guarded = true
+								}
+								if call, isC := strip(pr[0]).(*ssa.Call); isC && isBuiltinCall(call, "len") && (isHdr(call.Call.Args[0]) || isHdr(singleAssignment(call.Call.Args[0]))) {
+									if n, isN := constInt(pr[1]); isN && n == 0 && ((bo.Op == token.EQL && f.Pol) || (bo.Op == token.NEQ && !f.Pol)) {
+										guarded = true
+									}
+								}
+							}
+						}
+					}
+				})
+				// the default arrives over an edge of a phi: the edge's source block knows the header is empty
+				if phi, isPhi := strip(st.Val).(*ssa.Phi); isPhi && !guarded {
+					all := true
+					for k, e := range phi.Edges {
+						if isHdr(e) {
+							continue
+						}
+						okEdge := false
+						if k < len(phi.Block().Preds) {
+							for f := range facts[phi.Block().Preds[k]] {
+								bo, ok := f.Cond.(*ssa.BinOp)
+								if !ok {
+									continue
+								}
+								for _, pr := range [][2]ssa.Value{{bo.X, bo.Y}, {bo.Y, bo.X}} {
+									if kk, isS := constStr(pr[1]); isS && kk == "" && isHdr(pr[0]) && ((bo.Op == token.EQL && f.Pol) || (bo.Op == token.NEQ && !f.Pol)) {
+										okEdge = true
+									}
+									if call, isC := strip(pr[0]).(*ssa.Call); isC && isBuiltinCall(call, "len") && isHdr(call.Call.Args[0]) {
+										if n, isN := constInt(pr[1]); isN && n == 0 && ((bo.Op == token.EQL && f.Pol) || (bo.Op == token.NEQ && !f.Pol)) {
+											okEdge = true
+										}
+									}
+								}
+							}
+						}
+						if !okEdge {
+							all = false
+						}
+					}
+					guarded = all
+				}
+				if guarded {
 					okA = true
 				}
 			}
